@@ -381,9 +381,9 @@ def main(tier, seed):
             account("churn-release", check_log(p.stdout, bats, "churn-release"), spec)
     except subprocess.TimeoutExpired:
         errors.append("watchdog: churn-release")
-    # 1a''. very many mode changes in one thread (bookkeeping that counts set_default calls): 2^25 in the quick tier,
-    #       2^32 + 64 in the thorough tier (~15 s in release); default() and one rounding checked at every 2^k-th call
-    n_spin = (1 << 25) + 64 if tier == "quick" else (1 << 32) + 64
+    # 1a''. very many mode changes in one thread (bookkeeping that counts set_default calls): 2^32 + 64 calls (~12 s in
+    #       release), default() and one rounding checked at every 2^k-th and every 65536th call
+    n_spin = (1 << 32) + 64
     spin_req = os.path.join(wdir, "setspin.req")
     open(spin_req, "w").write("setspin %d\ngetmode\nround D25:1 0\n" % n_spin)
     try:
